@@ -159,7 +159,8 @@ def run_check(tier, base_seed, quiet=False):
     mism = {}
     try:
         procs = []
-        hashseeds = ['1', '31337'] if tier == 'quick' else ['1', '31337', '2', '77']
+        # (two values are not enough: the order of a two-element set is the same under about half of all seeds)
+        hashseeds = ['1', '31337', '2', '77'] if tier == 'quick' else ['1', '31337', '2', '77', '3', '99', '4242', '65537']
         nsh = 16 // len(hashseeds)
         for hs in hashseeds:
             for sh in range(nsh):
